@@ -114,7 +114,7 @@ func fmtVariations() map[string][]shapeT {
 		"/summary":               {{"true", true}, {"false", false}},
 		"/dryrun":                {{"true", true}, {"false", false}},
 		"/output":                {{"raw", "raw"}, {"prefixed", "prefixed"}},
-		"/import":                {{"list1", L{"inc/a.yaml"}}, {"list2", L{"inc/a.yaml", "inc/b.yaml"}}, {"empty", L{}}},
+		"/import":                {{"list1", L{"inc/a.yaml"}}, {"list2", L{"inc/a.yaml", "inc/b.yaml"}}, {"empty", L{}}, {"shared-lists-yaml", L{"inc/shared.yaml"}}, {"shared-lists-json", L{"inc/shared.json"}}, {"shared-lists-toml", L{"inc/shared.toml"}}},
 	}
 	return v
 }
@@ -244,7 +244,10 @@ func c16One(x *ctx, c fmtCase) bool {
 		outs  map[string]string
 	}
 	var got []one
-	aux := map[string]string{"inc/a.yaml": "tasks:\n  inca:\n    command: echo a\n", "inc/b.yaml": "tasks:\n  incb:\n    command: echo b\n", "t1.env": "EF=1\n", "wa.txt": "", "wx.txt": "", "wb.log": "", "wy.md": "", "wc.md": ""}
+	aux := map[string]string{"inc/a.yaml": "tasks:\n  inca:\n    command: echo a\n", "inc/b.yaml": "tasks:\n  incb:\n    command: echo b\n", "t1.env": "EF=1\n",
+		"inc/shared.yaml": "tasks:\n  t1:\n    variations:\n      - V: fromshared\npipelines:\n  p1:\n    - task: t1\n      name: extra\n      depends_on: [s1]\n",
+		"inc/shared.json": "{\"tasks\": {\"t1\": {\"variations\": [{\"V\": \"fromshared\"}]}}, \"pipelines\": {\"p1\": [{\"task\": \"t1\", \"name\": \"extra\", \"depends_on\": [\"s1\"]}]}}",
+		"inc/shared.toml": "[[tasks.t1.variations]]\nV = \"fromshared\"\n\n[[pipelines.p1]]\ntask = \"t1\"\nname = \"extra\"\ndepends_on = [\"s1\"]\n", "wa.txt": "", "wx.txt": "", "wb.log": "", "wy.md": "", "wc.md": ""}
 	useBin := os.Getenv("VERIF_TASKCTL") != "" && (*common_Tier() == "thorough" || len(c.Sets) == 0 || x.idx%5 == 0)
 	for _, e := range emitters {
 		b, err := e.emit(tree)
